@@ -72,6 +72,13 @@ def header(kmin, kmax):
     emit({"ev": "eof"})
 
 
+def headertable(kmax):
+    """line k = column names of OligoComputer(k).get_header() as letter bytes (for PosMap!HeaderConforms)"""
+    for k in range(1, kmax + 1):
+        cols = pk.OligoComputer(k).get_header()
+        sys.stdout.write(json.dumps([list(c.encode()) for c in cols], separators=(",", ":")) + "\n")
+
+
 def sparse(vals, norm):
     row = []
     for p, v in enumerate(vals):
@@ -168,13 +175,15 @@ def cgr_event(text, size, pts, src):
     for (x, y) in pts[nex:]:
         row = []
         for v in (x, y):
+            acc = 0
             for _ in range(20):
                 v *= 2.0
                 if v >= size:
-                    row.append(1)
+                    acc = acc * 2 + 1
                     v -= size
                 else:
-                    row.append(0)
+                    acc = acc * 2
+            row.append(acc)
         tops.append(row)
     emit({"ev": "cgr", "src": src, "s": size, "bytes": b, "err": 0, "npts": n, "nexact": nex, "pts": flat, "tops": tops})
 
@@ -237,6 +246,8 @@ def main():
     a = sys.argv[3:]
     if cmd == "header":
         header(int(a[0]), int(a[1]))
+    elif cmd == "headertable":
+        headertable(int(a[0]))
     elif cmd == "oligo":
         oligo(a[0], int(a[1]), int(a[2]))
     elif cmd == "kmer":
